@@ -144,9 +144,15 @@ func (db *DB) Compact() (CompactionResult, error) {
 		db.maintenanceMu.Unlock()
 	}()
 
-	db.mu.RLock()
+	db.mu.Lock()
 	segments := db.pickForCompaction()
-	db.mu.RUnlock()
+	// Seal the picked segments while the lock is still held: a delete record written to one of them
+	// after this point would be discarded together with the segment, although older segments that
+	// are not being compacted may still hold a put record for the key.
+	for _, seg := range segments {
+		seg.meta.Full = true
+	}
+	db.mu.Unlock()
 
 	for _, seg := range segments {
 		segcr, err := db.compact(seg)
